@@ -4,7 +4,7 @@
 (* row the harness ran through the real check.dnsbl module (configured     *)
 (* from text inside a real message pipeline):                               *)
 (*   [t, seq, e |-> "Row", in |-> <input of Dnsbl.tla>,                     *)
-(*    out |-> [action, stage, code, queries (sequence of [t, q])]]          *)
+(*    out |-> [action, stage, code, queries (sequence of [t, q]), action2]] *)
 (* For every row TLC evaluates the property predicates of Dnsbl.tla on the *)
 (* recorded output (viol = names of the false ones), compares the output   *)
 (* with the documented rule (drift) and, for the deviations of the open    *)
@@ -21,7 +21,7 @@ Rows == ndJsonDeserialize("trace.ndjson")
 tvars == <<in>>
 
 OutOf(r) == [action |-> r.out.action, stage |-> r.out.stage, code |-> r.out.code,
-             queries |-> Range(r.out.queries)]
+             queries |-> Range(r.out.queries), action2 |-> r.out.action2]
 DevSets == (SUBSET OpenDevs) \ {{}}
 Bad(r) == Viol(r.in, OutOf(r)) # {} \/ ~SameOut(OutOf(r), Rule(r.in))
 Verdict(r) == [t |-> r.t, drift |-> ~SameOut(OutOf(r), Rule(r.in)), driftAt |-> r.seq,
